@@ -57,3 +57,33 @@ package cmdrunner
 //@   at call (*os.Process).Kill#1 assert recv == c.process   [C04.force] [C15.kill]
 //@   ensures proc_kills[c.process] == old(proc_kills)[c.process] + 1   [C04.force] [C15.kill]
 
+//@ func (*cmdrunner.CmdAttachedRunner).Wait
+//@   nopanic [C15.watch]
+//@   bounded peer-dead [C03.c]
+//@   at call cmdrunner.pidWait#1 assert arg0 == c.pid   [C15.watch] [C04.end]
+
+//@ func (*cmdrunner.CmdRunner).Wait
+//@   nopanic [C04.end]
+//@   bounded peer-dead [C03.c]
+//@   requires c.cmd != nil
+//@   at call (*exec.Cmd).Wait#1 assert recv == c.cmd   [C04.end]
+
+//@ func (*cmdrunner.CmdRunner).Start
+//@   nopanic [C05.kill]
+//@   requires c.cmd != nil && c.logger != nil
+//@   modifies heap, $LOG
+//@   at call (*exec.Cmd).Start#1 assert recv == c.cmd   [C05.kill]
+
+//@ func cmdrunner.pidWait
+//@   nopanic [C15.watch]
+//@   bounded peer-dead [C03.c]
+//@   modifies heap_fresh
+//@   loop#1 frame fresh_only
+//@   at call cmdrunner.pidAlive#1 assert arg0 == pid   [C15.watch]
+//@   ensures result == nil
+
+//@ func cmdrunner.pidAlive
+//@   trusted
+//@   nonblocking
+//@   modifies nothing
+
